@@ -135,6 +135,9 @@ def cases(ctx):
                 if bs in (1,) and L > 8193:
                     continue
                 yield ("stream", m, L, bs)
+                # padding 'none': whole blocks only for ECB/CBC, anything for OFB/CTR, not offered by CFB
+                if (m in ("ecb", "cbc") and L % 16 == 0 and L > 0) or m in ("ofb", "ctr"):
+                    yield ("stream", m, L, bs, "none")
     for L in list(range(1, 97)) + [1023, 1024, 1025, 4096, 4097, 65536, 65537]:
         for ivi in range(3):
             for ki in range(2):
@@ -351,13 +354,16 @@ def run_case(ctx, case):
         return o
     if kind == "stream":
         import io as _io
-        _, m, L, bs = case
+        _, m, L, bs = case[:4]
+        nopad = len(case) > 4
         key = ctx.sym("c16-streamkey", 16)
         iv = ctx.sym("c16-streamiv", 16)
         data = ctx.sym("c16-streamdata-%d" % L, L)
         block_mode = m in ("ecb", "cbc")
-        exp = ref_mode(m, key, iv, A.pkcs7_pad(data) if block_mode else data, True)
+        exp = ref_mode(m, key, iv, A.pkcs7_pad(data) if block_mode and not nopad else data, True)
         kw = {} if bs is None else {"block_size": bs}
+        if nopad:
+            kw["padding"] = "none"
         out = _io.BytesIO()
         bf.encrypt_stream(mk_mode(m, key, iv if m not in ("ecb", "ctr") else None, 1 if m == "ctr" else None), _io.BytesIO(data), out, **kw)
         if out.getvalue() != exp:
